@@ -9,9 +9,16 @@
    (type, class, ttl, id) where id stands for owner name + rdata.
 
    Panic sites: 1 = classify_no_error `.expect("section expected")` on a
-   response without question; 2 = `Ttl - Ttl` underflow in decrement_ttl.
-   Not modelled: wire parsing errors inside responses (every `?` on a parse),
-   moka's own eviction policy, concurrency. *)
+   response without question (only while T1 still finds the expect);
+   2 = `Ttl - Ttl` underflow in decrement_ttl.
+   Parse errors of upstream messages (every `?` on a parse in cache.rs) are
+   modelled by two flags: [m_broken] = walking the sections fails (a record
+   header does not parse / the counts promise more than there is): `validity`
+   fails; [r_bad] = the record's header parses but its RDATA does not parse as
+   its type: `validity` does not notice, `decrement_ttl` and `remove_dnssec`
+   (which convert every record with into_record::<AllRecordData>) fail.  Both
+   give Error::MessageParseError = [parse_error].
+   Not modelled: moka's own eviction policy, concurrency. *)
 From Coq Require Import NArith List Bool.
 From DV Require Import Base.Outcome C20.Gen.
 Import ListNotations.
@@ -78,29 +85,42 @@ Definition key_of_request (name cls ty : N) (rd cd ad dnssec_ok : bool) : key :=
 
 (* ---------- Messages ------------------------------------------------------ *)
 
-Record rr := mkRR { r_type : N; r_class : N; r_ttl : N; r_id : N }.
+Record rr := mkRR { r_type : N; r_class : N; r_ttl : N; r_id : N; r_bad : bool }.
 
 Record msg := mkMsg {
+  m_id : N;                        (* header ID: copied, never rewritten *)
   m_rcode : N; m_aa : bool; m_tc : bool; m_rd : bool; m_ad : bool;
   m_q : option (N * N);            (* (qtype, qclass) of the first question *)
-  m_an : list rr; m_ns : list rr; m_ar : list rr }.
+  m_an : list rr; m_ns : list rr; m_ar : list rr;
+  m_broken : bool }.
 
 Inductive resp := RMsg (m : msg) | RErr (e : N).
 
+(* Error::MessageParseError in the numbering of the harness *)
+Definition parse_error : N := 20.
+
 Definition msg_set_aa (b : bool) (m : msg) : msg :=
-  mkMsg (m_rcode m) b (m_tc m) (m_rd m) (m_ad m) (m_q m) (m_an m) (m_ns m) (m_ar m).
+  mkMsg (m_id m) (m_rcode m) b (m_tc m) (m_rd m) (m_ad m) (m_q m) (m_an m) (m_ns m) (m_ar m) (m_broken m).
 Definition msg_set_rd (b : bool) (m : msg) : msg :=
-  mkMsg (m_rcode m) (m_aa m) (m_tc m) b (m_ad m) (m_q m) (m_an m) (m_ns m) (m_ar m).
+  mkMsg (m_id m) (m_rcode m) (m_aa m) (m_tc m) b (m_ad m) (m_q m) (m_an m) (m_ns m) (m_ar m) (m_broken m).
 Definition msg_set_ad (b : bool) (m : msg) : msg :=
-  mkMsg (m_rcode m) (m_aa m) (m_tc m) (m_rd m) b (m_q m) (m_an m) (m_ns m) (m_ar m).
+  mkMsg (m_id m) (m_rcode m) (m_aa m) (m_tc m) (m_rd m) b (m_q m) (m_an m) (m_ns m) (m_ar m) (m_broken m).
 
 Definition is_dnssec (t : N) : bool := existsb (N.eqb t) dnssec_types.
 Definition keep_rr (r : rr) : bool := negb (is_dnssec (r_type r)).
 
 (* remove_dnssec(msg, ad) *)
 Definition remove_dnssec (ad : bool) (m : msg) : msg :=
-  mkMsg (m_rcode m) (m_aa m) (m_tc m) (m_rd m) (if negb ad then false else m_ad m) (m_q m)
-        (filter keep_rr (m_an m)) (filter keep_rr (m_ns m)) (filter keep_rr (m_ar m)).
+  mkMsg (m_id m) (m_rcode m) (m_aa m) (m_tc m) (m_rd m) (if negb ad then false else m_ad m) (m_q m)
+        (filter keep_rr (m_an m)) (filter keep_rr (m_ns m)) (filter keep_rr (m_ar m)) (m_broken m).
+
+(* every record is converted with into_record::<AllRecordData> before the
+   is_dnssec test, so one unparsable RDATA (even of a record that would be
+   dropped) fails the whole rewrite *)
+Definition has_bad (m : msg) : bool :=
+  existsb r_bad (m_an m) || existsb r_bad (m_ns m) || existsb r_bad (m_ar m).
+Definition remove_dnssec_o (ad : bool) (m : msg) : outcome msg :=
+  if has_bad m then Err parse_error else Ok (remove_dnssec ad m).
 
 (* ---------- validity ------------------------------------------------------ *)
 
@@ -148,6 +168,7 @@ Definition validity (c : config) (r : resp) : outcome N :=
   | RErr _ => Ok (cfg_field c cap_failure)
   | RMsg m =>
       if m_tc m && negb (c_trunc c) then Ok 0
+      else if m_broken m then Err parse_error
       else
         do cap <- class_cap c m;
         Ok (ttl_min_opt (ttl_min (ttl_min cap (m_an m)) (m_ns m)) (m_ar m))
@@ -158,8 +179,9 @@ Definition validity (c : config) (r : resp) : outcome N :=
 Record value := mkValue { v_created : N (* ms *); v_valid : N (* s *); v_resp : resp }.
 
 Definition dec_rr (amount : N) (r : rr) : outcome rr :=
-  if r_ttl r <? amount then Panic 2
-  else Ok (mkRR (r_type r) (r_class r) (r_ttl r - amount) (r_id r)).
+  if r_bad r then Err parse_error
+  else if r_ttl r <? amount then Panic 2
+  else Ok (mkRR (r_type r) (r_class r) (r_ttl r - amount) (r_id r) false).
 
 Fixpoint dec_list (amount : N) (l : list rr) : outcome (list rr) :=
   match l with
@@ -171,7 +193,8 @@ Fixpoint dec_list_opt (amount : N) (l : list rr) : outcome (list rr) :=
   match l with
   | [] => Ok []
   | r :: t =>
-      do r' <- (if negb (r_type r =? rtype_opt) then dec_rr amount r else Ok r);
+      do r' <- (if negb (r_type r =? rtype_opt) then dec_rr amount r
+                else if r_bad r then Err parse_error else Ok r);
       do t' <- dec_list_opt amount t; Ok (r' :: t')
   end.
 
@@ -182,7 +205,7 @@ Definition decrement_ttl (r : resp) (amount : N) : outcome resp :=
       do an <- dec_list amount (m_an m);
       do ns <- dec_list amount (m_ns m);
       do ar <- dec_list_opt amount (m_ar m);
-      Ok (RMsg (mkMsg (m_rcode m) (m_aa m) (m_tc m) (m_rd m) (m_ad m) (m_q m) an ns ar))
+      Ok (RMsg (mkMsg (m_id m) (m_rcode m) (m_aa m) (m_tc m) (m_rd m) (m_ad m) (m_q m) an ns ar (m_broken m)))
   end.
 
 (* `elapsed > self.valid_for` (operator from T1); elapsed in ms, valid in s *)
@@ -199,16 +222,18 @@ Definition get_response (v : value) (now : N) : option (outcome resp) :=
   else Some (decrement_ttl (v_resp v) (cast_secs e)).
 
 (* update_message / update_header / new_from_value_and_response *)
-Definition update_message (c : config) (v : value) (tst : msg -> bool) (f : msg -> msg)
+Definition update_message (c : config) (v : value) (tst : msg -> bool) (f : msg -> outcome msg)
   : outcome value :=
   match v_resp v with
   | RErr _ => Ok v
   | RMsg m =>
       if tst m then
-        do val <- validity c (RMsg (f m));
-        Ok (mkValue (v_created v) val (RMsg (f m)))
+        do m' <- f m;
+        do val <- validity c (RMsg m');
+        Ok (mkValue (v_created v) val (RMsg m'))
       else Ok v
   end.
+Definition pure (g : msg -> msg) (m : msg) : outcome msg := Ok (g m).
 
 (* ---------- the store ----------------------------------------------------- *)
 
@@ -230,64 +255,83 @@ Fixpoint evict_nth (n : nat) (c : cache) : cache :=
   | e :: t, S n' => e :: evict_nth n' t
   end.
 
-(* cache_insert: zero validity is not stored; prepare_for_insert clears AA *)
+(* cache_insert: zero validity is not stored; prepare_for_insert clears AA;
+   if that fails the error itself is stored as a failure value *)
 Definition cache_insert (cfg : config) (k : key) (v : value) (c : cache) : outcome cache :=
   if insert_skips_zero && (v_valid v =? 0) then Ok c
   else
-    do v' <- update_message cfg v m_aa (msg_set_aa false);
-    Ok (cinsert k v' c).
+    match update_message cfg v m_aa (pure (msg_set_aa false)) with
+    | Ok v' => Ok (cinsert k v' c)
+    | Err e => Ok (cinsert k (mkValue (v_created v) (cfg_field cfg cap_failure) (RErr e)) c)
+    | Panic s => Panic s
+    | OutOfFuel => OutOfFuel
+    end.
 
 (* ---------- the lookup cascade ---------------------------------------------- *)
 
-Definition cache_lookup_ad (cfg : config) (k : key) (c : cache) : outcome (cache * option value) :=
+(* Result<Option<Arc<Value>>, Error> *)
+Inductive lres := LSome (v : value) | LNone | LFail (e : N).
+
+(* `?` inside the cascade: an error ends the lookup (the store keeps what was
+   inserted so far) *)
+Definition try_ {A} (c : cache) (x : outcome A) (k : A -> outcome (cache * lres)) : outcome (cache * lres) :=
+  match x with
+  | Ok a => k a
+  | Err e => Ok (c, LFail e)
+  | Panic s => Panic s
+  | OutOfFuel => OutOfFuel
+  end.
+
+Definition cache_lookup_ad (cfg : config) (k : key) (c : cache) : outcome (cache * lres) :=
   match cget k c with
-  | Some v => Ok (c, Some v)
+  | Some v => Ok (c, LSome v)
   | None =>
-      if addo_ad (k_addo k) then Ok (c, None)
+      if addo_ad (k_addo k) then Ok (c, LNone)
       else
         match cget (key_set_addo k (addo_of_code alt_ad)) c with
         | Some v =>
-            do v' <- update_message cfg v m_ad (msg_set_ad ad_fix_sets);
+            try_ c (update_message cfg v m_ad (pure (msg_set_ad ad_fix_sets))) (fun v' =>
             do c' <- cache_insert cfg k v' c;
-            Ok (c', Some v')
-        | None => Ok (c, None)
+            Ok (c', LSome v'))
+        | None => Ok (c, LNone)
         end
   end.
 
-Definition cache_lookup_do_ad (cfg : config) (k : key) (c : cache) : outcome (cache * option value) :=
+Definition cache_lookup_do_ad (cfg : config) (k : key) (c : cache) : outcome (cache * lres) :=
   do r <- cache_lookup_ad cfg k c;
-  let (c1, ov) := r in
-  match ov with
-  | Some _ => Ok (c1, ov)
-  | None =>
-      if addo_do (k_addo k) then Ok (c1, None)
-      else if is_dnssec (k_type k) then Ok (c1, None)
+  let (c1, res) := r in
+  match res with
+  | LSome _ | LFail _ => Ok (c1, res)
+  | LNone =>
+      if addo_do (k_addo k) then Ok (c1, LNone)
+      else if is_dnssec (k_type k) then Ok (c1, LNone)
       else
         match cget (key_set_addo k (addo_of_code alt_do)) c1 with
         | Some v =>
-            do v' <- update_message cfg v (fun _ => true) (remove_dnssec (addo_ad (k_addo k)));
+            try_ c1 (update_message cfg v (fun _ => true) (remove_dnssec_o (addo_ad (k_addo k)))) (fun v' =>
             do c2 <- cache_insert cfg k v' c1;
-            Ok (c2, Some v')
-        | None => Ok (c1, None)
+            Ok (c2, LSome v'))
+        | None => Ok (c1, LNone)
         end
   end.
 
-Definition cache_lookup_rd_do_ad (cfg : config) (k : key) (c : cache) : outcome (cache * option value) :=
+Definition cache_lookup_rd_do_ad (cfg : config) (k : key) (c : cache) : outcome (cache * lres) :=
   do r <- cache_lookup_do_ad cfg k c;
-  let (c1, ov) := r in
-  match ov with
-  | Some _ => Ok (c1, ov)
-  | None =>
-      if k_rd k then Ok (c1, None)
+  let (c1, res) := r in
+  match res with
+  | LSome _ | LFail _ => Ok (c1, res)
+  | LNone =>
+      if k_rd k then Ok (c1, LNone)
       else
         do r2 <- cache_lookup_do_ad cfg (key_set_rd k alt_rd) c1;
-        let (c2, ov2) := r2 in
-        match ov2 with
-        | Some v =>
-            do v' <- update_message cfg v (fun _ => true) (msg_set_rd rd_fix_sets);
+        let (c2, res2) := r2 in
+        match res2 with
+        | LSome v =>
+            try_ c2 (update_message cfg v (fun _ => true) (pure (msg_set_rd rd_fix_sets))) (fun v' =>
             do c3 <- cache_insert cfg k v' c2;
-            Ok (c3, Some v')
-        | None => Ok (c2, None)
+            Ok (c3, LSome v'))
+        | LNone => Ok (c2, LNone)
+        | LFail e => Ok (c2, LFail e)
         end
   end.
 
@@ -302,8 +346,11 @@ Inductive event :=
 | EEvict (n : nat).   (* the store drops its n-th entry *)
 
 Inductive obs :=
-| OServed (r : resp)   (* answered from the cache *)
+| OServed (r : resp)   (* answered without contacting upstream (a response, or an
+                          error raised while preparing it) *)
 | OForwarded           (* sent upstream, answer passed through and cached *)
+| OFwdErr (e : N)      (* sent upstream, but Value::new failed on the answer: the
+                          caller gets the error, nothing is cached *)
 | OBypass              (* not a QUERY/IN request: passed through, no caching *)
 | OEvicted.
 
@@ -320,14 +367,26 @@ Definition step (cfg : config) (st : state) (ev : event) : outcome (state * obs)
       if negb ((opcode =? 0) && (k_class k =? class_in)) then Ok (st, OBypass)
       else
         do r <- cache_lookup cfg k (s_cache st);
-        let (c1, ov) := r in
-        match (match ov with Some v => get_response v now | None => None end) with
-        | Some served => do s <- served; Ok (mkState c1 (s_log st), OServed s)
+        let (c1, res) := r in
+        match res with
+        | LFail e => Ok (mkState c1 (s_log st), OServed (RErr e))   (* `cache_lookup(..).await?` *)
+        | _ =>
+        match (match res with LSome v => get_response v now | _ => None end) with
+        | Some (Ok s) => Ok (mkState c1 (s_log st), OServed s)
+        | Some (Err e) => Ok (mkState c1 (s_log st), OServed (RErr e))
+        | Some (Panic p) => Panic p
+        | Some OutOfFuel => OutOfFuel
         | None =>
             let t := now + delay in
-            do val <- validity cfg u;
-            do c2 <- cache_insert cfg k (mkValue t val u) c1;
-            Ok (mkState c2 ((k, t, u) :: s_log st), OForwarded)
+            match validity cfg u with
+            | Ok val =>
+                do c2 <- cache_insert cfg k (mkValue t val u) c1;
+                Ok (mkState c2 ((k, t, u) :: s_log st), OForwarded)
+            | Err e => Ok (mkState c1 ((k, t, u) :: s_log st), OFwdErr e)   (* `Value::new(..)?` *)
+            | Panic p => Panic p
+            | OutOfFuel => OutOfFuel
+            end
+        end
         end
   end.
 
